@@ -418,6 +418,13 @@ func c12Setter(r *Report, E *envRoles) {
 					}
 					c := in.Common()
 					if sc := c.StaticCallee(); sc != nil && !P.inPkg(sc) {
+						if ct, ok := lookupContract(sc); ok {
+							for _, wi := range ct.writes {
+								if wi < len(c.Args) && p.eng.of(c.Args[wi]).eq(res) {
+									why = "after the puts the map is written by " + shortFn(sc) + " (entries of the base map would replace the envelope's own)"
+								}
+							}
+						}
 						if _, ok := lookupContract(sc); !ok {
 							for _, a := range c.Args {
 								if p.eng.of(a).eq(res) {
